@@ -687,7 +687,7 @@ func ruleRetryLoopExits(c *Ctx, r *Rule) {
 	send, cb := sends[0], errCbs[0]
 	n := 0
 	for _, b := range fn.Blocks {
-		ret, ok := b.Instrs[len(b.Instrs)-1].(*ssa.Return)
+		ret, ok := asReturn(b)
 		if !ok {
 			continue
 		}
